@@ -102,6 +102,8 @@ def _decb_facts():
     assert [ev[1][0][1] for ev in r["trace"]] == ["Z"], "a false IF skips the rest of the line"
     r = D.run_decb('10 READ A,B$,C\n20 DATA 1, X Y ,\n')
     assert r["vars"] == {"A": 1.0, "B$": "X Y ", "C": 0.0}, r["vars"]
+    r = D.run_decb('10 A=1:B=5\n20 IFA=1THENPRINTB;"X  Y"ELSEPRINT"N"\n30 FORI=1TO2:NEXTI\n')
+    assert r["trace"][0][1][0] == ("s", " 5 ") and r["trace"][0][1][2] == ("s", "X  Y") and r["vars"]["I"] == 3.0, "reserved words are tokens wherever they occur; blanks in literals are content"
     r = D.run_decb('10 ON 3 GOTO 20,30\n15 PRINT "F":END\n20 END\n30 END\n')
     assert r["trace"][0][1][0][1] == "F", "ON falls through when out of range"
 
